@@ -117,6 +117,18 @@ fn run_both(case: &ReadCase, p: &mut Part) {
     }
 }
 
+/// The same history on a connection whose user first tried to send packets that cannot be encoded: the failed writes must
+/// not leave anything behind that a later read would put on the wire.
+fn run_both_after_refused_writes(case: &ReadCase, n: usize, p: &mut Part) {
+    for which in IMPLS {
+        p.evaluations += 1;
+        let mut c2 = case.clone();
+        c2.label = format!("{}-after-{n}-refused-writes", case.label);
+        let o = crate::sess::run_read_case_pre(which, &c2, n);
+        judge(&c2, which, &o, p);
+    }
+}
+
 pub fn run(ctx: &mut Ctx) -> (&'static str, String, bool) {
     let c = match Corpus::load() {
         Ok(c) => c,
@@ -217,6 +229,9 @@ pub fn run(ctx: &mut Ctx) -> (&'static str, String, bool) {
             let case = ReadCase { compressed, stream, read_plan: plan, default_read, write_plan: wplan, verify_version: i % 3 == 0, flush: [0, 0, 1, 2, 3][(i % 5) as usize], label: format!("history-{i}") };
             p.distinct(&case.stream);
             run_both(&case, &mut p);
+            if i % 3 == 1 {
+                run_both_after_refused_writes(&case, 1 + (i as usize / 3) % 3, &mut p);
+            }
             if i == 0 {
                 p.sample(json!({"label": "history-0", "incoming_frames": ref_frames(&case.stream, compressed).0.len(), "incoming": hex(&case.stream[..case.stream.len().min(96)])}));
             }
@@ -245,6 +260,9 @@ pub fn run(ctx: &mut Ctx) -> (&'static str, String, bool) {
                 for seg in [0usize, 1, 5] {
                     let case = ReadCase { compressed, stream: stream.clone(), read_plan: vec![RAct::Bytes(3)], default_read: seg, write_plan: vec![], verify_version: false, flush: 0, label: format!("around-{}-seg{seg}", lay.name) };
                     run_both(&case, &mut p);
+                    if seg == 5 {
+                        run_both_after_refused_writes(&case, 1, &mut p);
+                    }
                     p.distinct(&(compressed, &lay.name, seg));
                 }
             }
